@@ -1415,6 +1415,9 @@ where
         if let Some((b, t, s)) = (!self.decompose_skip_select_provenance)
             .then(|| self.ext_select_sources.get(&x).copied())
             .flatten()
+            // `connect(select(b, t, s), t)` shares the select's provenance with `t` itself;
+            // following it from `t` would decompose `t` in terms of `t` forever.
+            .filter(|&(_, t, s)| t != x && s != x)
         {
             let t_coeffs_opt = self.ext_recompose_coeffs.get(&t).cloned();
             let s_coeffs_opt = self.ext_recompose_coeffs.get(&s).cloned();
